@@ -188,3 +188,15 @@ reg("C02", "exploration",
                      "python_files_validated": 20, "python_lookups": 100, "spec_lookups": 10000}},
     phases=c02_phases,
     assumptions=["flate2/brotli/zstd are shared with the library as codec back ends (gzip additionally checked with Python zlib)"])
+
+reg("C03", "exploration",
+    "cases = archives emitted by the harness' independent spec-level writer (never by pmtiles2): section order permuted, sentinel "
+    "gaps between and inside sections, directory trees of depth 1-3(+), run lengths >= 1, clustered / back-referencing / shuffled "
+    "tile offsets, empty or random JSON-object metadata, counters present or 0, 4 codecs called directly with foreign parameters and "
+    "framing variants (gzip header fields, zstd checksum/content size, brotli windows); every archive is first accepted by the "
+    "reference validator (else inconclusive); plus the repository's three upstream fixtures. Entry points rotate from_bytes / "
+    "from_reader / from_async_reader; util::read_directories on every archive; Directory::find_entry_for_tile_id on every "
+    "directory of every 4th archive. Distinct by fingerprint of the archive bytes; non-trivial = >= 2 entries.",
+    require={"any": {"archives_equal": 1000, "entry_maps_equal": 1000, "fixtures_equal": 3, "find_entry_probes": 2000,
+                     "depth.3": 50, "depth.2": 50, "layouts_with_permuted_sections": 100, "layouts_with_gaps": 100,
+                     "layouts_with_empty_metadata": 50, "offset_style.2": 100}})
